@@ -680,16 +680,21 @@ Definition dec_case (x : sx) : option case :=
   | _ => None
   end.
 
-(* line = (<case> (multi <obs> ...)) *)
+(* line = (<case> (multi <obs> ...)); anything else in the place of the observation
+   (the driver's (hang) / (abort n)) counts as one run that returned no value *)
+Definition dec_runs (o : sx) : list sobs :=
+  match o with
+  | Lx (Ax m :: os) => if String.eqb m "multi" then map dec_sobs os else [SOther]
+  | _ => [SOther]
+  end.
+
 Definition judge_set (x : sx) : sx :=
   match x with
-  | Lx [c; Lx (Ax m :: os)] =>
-      if String.eqb m "multi" then
-        match dec_case c with
-        | Some c' => if wf_case c' then judge_case c' (map dec_sobs os) else v_malformed
-        | None => v_malformed
-        end
-      else v_malformed
+  | Lx [c; o] =>
+      match dec_case c with
+      | Some c' => if wf_case c' then judge_case c' (dec_runs o) else v_malformed
+      | None => v_malformed
+      end
   | _ => v_malformed
   end.
 
